@@ -68,3 +68,82 @@
 (define-fun rfn_kind ((w Any)) Int
   (ite ((_ is box<*cty.refinementNumber>) w) 1 (ite ((_ is box<*cty.refinementString>) w) 2
   (ite ((_ is box<*cty.refinementCollection>) w) 3 (ite ((_ is box<*cty.refinementNullable>) w) 4 0)))))
+
+; ---- types ---------------------------------------------------------------------------------------
+(define-fun ti ((t cty.Type)) Any (cty.Type.typeImpl t))
+(define-fun is_nil_ty ((t cty.Type)) Bool (= (ti t) nil.Any))
+(define-fun is_prim_ty ((t cty.Type)) Bool ((_ is box<cty.primitiveType>) (ti t)))
+(define-fun prim_kind ((t cty.Type)) Int (cty.primitiveType.Kind (unbox<cty.primitiveType> (ti t))))
+(define-fun is_dyn_ty ((t cty.Type)) Bool ((_ is box<cty.pseudoTypeDynamic>) (ti t)))
+(define-fun is_list_ty ((t cty.Type)) Bool ((_ is box<cty.typeList>) (ti t)))
+(define-fun is_map_ty ((t cty.Type)) Bool ((_ is box<cty.typeMap>) (ti t)))
+(define-fun is_set_ty ((t cty.Type)) Bool ((_ is box<cty.typeSet>) (ti t)))
+(define-fun is_obj_ty ((t cty.Type)) Bool ((_ is box<cty.typeObject>) (ti t)))
+(define-fun is_tuple_ty ((t cty.Type)) Bool ((_ is box<cty.typeTuple>) (ti t)))
+(define-fun is_capsule_ty ((t cty.Type)) Bool ((_ is box<*cty.capsuleType>) (ti t)))
+(define-fun is_coll_ty ((t cty.Type)) Bool (or (is_list_ty t) (is_map_ty t) (is_set_ty t)))
+(define-fun is_number_ty ((t cty.Type)) Bool (and (is_prim_ty t) (= (prim_kind t) 78)))
+(define-fun is_string_ty ((t cty.Type)) Bool (and (is_prim_ty t) (= (prim_kind t) 83)))
+(define-fun is_bool_ty ((t cty.Type)) Bool (and (is_prim_ty t) (= (prim_kind t) 66)))
+(define-fun elem_ty ((t cty.Type)) cty.Type
+  (ite (is_list_ty t) (cty.typeList.ElementTypeT (unbox<cty.typeList> (ti t)))
+  (ite (is_map_ty t) (cty.typeMap.ElementTypeT (unbox<cty.typeMap> (ti t)))
+       (cty.typeSet.ElementTypeT (unbox<cty.typeSet> (ti t))))))
+(define-fun tuple_sl ((t cty.Type)) Slice (cty.typeTuple.ElemTypes (unbox<cty.typeTuple> (ti t))))
+(define-fun tuple_len ((t cty.Type)) Int (Slice.len (tuple_sl t)))
+(define-fun tuple_arr ((t cty.Type)) (Array Int cty.Type) (select F.Arr<cty.Type> (Slice.ptr (tuple_sl t))))
+(define-fun tuple_off ((t cty.Type)) Int (Slice.off (tuple_sl t)))
+(define-fun tuple_at ((t cty.Type) (i Int)) cty.Type (select (tuple_arr t) (+ (tuple_off t) i)))
+(define-fun obj_atys_ptr ((t cty.Type)) Int (cty.typeObject.AttrTypes (unbox<cty.typeObject> (ti t))))
+(define-fun obj_opt_ptr ((t cty.Type)) Int (cty.typeObject.AttrOptional (unbox<cty.typeObject> (ti t))))
+(define-fun obj_atys ((t cty.Type)) MapC<String~cty.Type> (select F.MapC<String~cty.Type> (obj_atys_ptr t)))
+(define-fun obj_dom ((t cty.Type)) (Array String Bool) (MapC<String~cty.Type>.dom (obj_atys t)))
+(define-fun obj_aty ((t cty.Type) (k String)) cty.Type (select (MapC<String~cty.Type>.val (obj_atys t)) k))
+(define-fun obj_opt ((t cty.Type)) (Array String Bool) (MapC<String~Unit>.dom (select F.MapC<String~Unit> (obj_opt_ptr t))))
+
+; Structural equality of types (C07): an equivalence relation (M1) with a definitional axiom.
+(declare-fun ty_eq (cty.Type cty.Type) Bool)
+(assert (forall ((a cty.Type)) (! (ty_eq a a) :pattern ((ty_eq a a)))))
+(assert (forall ((a cty.Type) (b cty.Type)) (! (= (ty_eq a b) (ty_eq b a)) :pattern ((ty_eq a b)))))
+(assert (forall ((a cty.Type) (b cty.Type) (c cty.Type)) (! (=> (and (ty_eq a b) (ty_eq b c)) (ty_eq a c)) :pattern ((ty_eq a b) (ty_eq b c)))))
+(define-fun ty_eq_tuple ((a cty.Type) (b cty.Type)) Bool
+  (and (= (tuple_len a) (tuple_len b))
+       (forall ((j Int)) (! (=> (and (<= (tuple_off a) j) (< j (+ (tuple_off a) (tuple_len a))))
+                              (ty_eq (select (tuple_arr a) j) (select (tuple_arr b) (+ (- j (tuple_off a)) (tuple_off b)))))
+                           :pattern ((select (tuple_arr a) j))))))
+(define-fun ty_eq_obj ((a cty.Type) (b cty.Type)) Bool
+  (and (= (obj_dom a) (obj_dom b))
+       (forall ((k String)) (! (=> (select (obj_dom a) k)
+                                  (and (ty_eq (obj_aty a k) (obj_aty b k)) (= (select (obj_opt a) k) (select (obj_opt b) k))))
+                           :pattern ((select (obj_dom a) k))))))
+(assert (forall ((a cty.Type) (b cty.Type)) (! (= (ty_eq a b)
+    (or (and (is_nil_ty a) (is_nil_ty b))
+        (and (is_prim_ty a) (is_prim_ty b) (= (prim_kind a) (prim_kind b)))
+        (and (is_dyn_ty a) (is_dyn_ty b))
+        (and (is_list_ty a) (is_list_ty b) (ty_eq (elem_ty a) (elem_ty b)))
+        (and (is_map_ty a) (is_map_ty b) (ty_eq (elem_ty a) (elem_ty b)))
+        (and (is_set_ty a) (is_set_ty b) (ty_eq (elem_ty a) (elem_ty b)))
+        (and (is_tuple_ty a) (is_tuple_ty b) (ty_eq_tuple a b))
+        (and (is_obj_ty a) (is_obj_ty b) (ty_eq_obj a b))
+        (and (is_capsule_ty a) (is_capsule_ty b) (= (ti a) (ti b)))
+        (= a b)))
+  :pattern ((ty_eq a b)))))
+; representation invariant of a type (what the constructors establish)
+(declare-fun wf_ty (cty.Type) Bool)
+(define-fun wf_ty_obj ((t cty.Type)) Bool
+  (and (MapC<String~cty.Type>.ok (obj_atys t))
+       (MapC<String~Unit>.ok (select F.MapC<String~Unit> (obj_opt_ptr t)))
+       (not (= (obj_atys_ptr t) 0))
+       (forall ((k String)) (! (=> (select (obj_opt t) k) (select (obj_dom t) k)) :pattern ((select (obj_opt t) k))))
+       (forall ((k String)) (! (=> (select (obj_dom t) k) (wf_ty (obj_aty t k))) :pattern ((select (obj_dom t) k))))))
+(define-fun wf_ty_tuple ((t cty.Type)) Bool
+  (and (slice.ok (tuple_sl t))
+       (forall ((j Int)) (! (=> (and (<= (tuple_off t) j) (< j (+ (tuple_off t) (tuple_len t)))) (wf_ty (select (tuple_arr t) j)))
+                           :pattern ((select (tuple_arr t) j))))))
+(assert (forall ((t cty.Type)) (! (= (wf_ty t)
+    (or (is_prim_ty t) (is_dyn_ty t)
+        (and (is_coll_ty t) (wf_ty (elem_ty t)))
+        (and (is_tuple_ty t) (wf_ty_tuple t))
+        (and (is_obj_ty t) (wf_ty_obj t))
+        (and (is_capsule_ty t) (not (= (unbox<*cty.capsuleType> (ti t)) 0)))))
+  :pattern ((wf_ty t)))))
